@@ -8,6 +8,12 @@ TB = ('Trusted: CBMC 6.11 (goto-cc C front end, goto-instrument --dfcc, SAT back
       'types and the extraction rule table (DESIGN 4), libc models/stubs named in the evidence, allocation never fails. ')
 
 CLAIMS = {
+ 'C01': dict(level='other', design='6 C01',
+   text='Contracts on the real bodies of Array::reserve, resize/clear, insert/operator<<, remove, copy constructor, destructor, operator=, free: abstract view (n, elements) via a ghost index, '
+        'element life-cycle counters (constructed once, destroyed once), reference-count protocol, frames and frees. Block capacity (and requested size where it fixes an allocation size) is a constant per variant '
+        '(3, 4, 6: crossing the growth steps); n, index, rc, contents and the aliasing choice (argument is an element of the same array) are symbolic. Every unit is therefore a bounded stand-in (bounded by capacity), not a proof for all capacities.',
+   note=TB + 'Claimed at level other because every C01 unit is capacity-bounded. Histories: induction over the proved mutators (paper step). Not decided: sort, slice/concat/filter/map templates, String elements, Stack/Queue wrappers beyond resize/remove, all capacities at once. Known finding: growth while the block is shared.',
+   technique='CBMC code contracts (DFCC) on extracted template bodies, capacity fixed per variant'),
  'C03': dict(level='proof', design='6 C03',
    text='Contracts (requires/ensures/assigns/frees) on the real bodies of String::resize, append, assign, concat, substring, substr, '
         'operator+=(char), String(const char*,int), copy constructor, String(int), String(Long) (+ alloc/init/str/String(cap,n) inlined), '
